@@ -3873,7 +3873,7 @@ class TLSConnection(TLSRecordLayer):
         # start negotiating the parameters of the connection
 
         sni_ext = clientHello.getExtension(ExtensionType.server_name)
-        if sni_ext:
+        if sni_ext and sni_ext.hostNames:
             name = sni_ext.hostNames[0].decode('ascii', 'strict')
             # warn the client if the name didn't match the expected value
             if sni and sni != name:
